@@ -59,7 +59,7 @@ fn once(id: usize, init: &mut dyn FnMut()) {
 }
 fn epoch() -> usize { EPOCH.load(Ordering::SeqCst) }
 
-pub const OPS: [&str; 13] = ["format", "format_flat", "tree_format(false)", "tree_format(true)", "diagnostic_annotated", "hex", "register_tags", "known_value_name", "functions_lookup", "parameters_lookup", "tags_lookup", "digest+encoding", "register_custom_tag"];
+pub const OPS: [&str; 15] = ["format", "format_flat", "tree_format(false)", "tree_format(true)", "diagnostic_annotated", "hex", "register_tags", "known_value_name", "functions_lookup", "parameters_lookup", "tags_lookup", "digest+encoding", "register_custom_tag", "known_values_guard_held_while_formatting", "functions_guard_held_while_formatting"];
 fn run_op(op: usize, e: &Envelope) -> String {
     match op {
         0 => e.format(),
@@ -74,6 +74,10 @@ fn run_op(op: usize, e: &Envelope) -> String {
         9 => { let g = bc_envelope::extension::expressions::GLOBAL_PARAMETERS.get(); let s = g.as_ref().unwrap(); format!("{}|{}", s.name(&Parameter::from(1u64)), s.name(&Parameter::from(99u64))) }
         10 => dcbor::with_tags!(|t: &dcbor::TagsStore| format!("{}|{}|{}", t.name_for_value(200), t.name_for_value(40000), t.name_for_value(1))),
         11 => format!("{}|{}", hex(e.digest().data()), hex(&e.to_cbor_data())),
+        // an application consulting a registry (the documented `let binding = KNOWN_VALUES.get();` pattern) and formatting while the binding is alive
+        // (the format context is initialised first: holding a registry guard across FIRST-USE initialisation is outside the property)
+        13 => { let _ = e.format_flat(); let g = known_values::KNOWN_VALUES.get(); let n = g.as_ref().unwrap().name(KnownValue::new(4)); let t = e.format_flat(); drop(g); format!("{n}|{t}") }
+        14 => { let _ = e.format_flat(); let g = bc_envelope::extension::expressions::GLOBAL_FUNCTIONS.get(); let n = g.as_ref().unwrap().name(&Function::from(1u64)); let t = e.format_flat(); drop(g); format!("{n}|{t}") }
         // an application registering its own tag name in the global format context (the documented use of with_format_context_mut!)
         _ => { bc_envelope::with_format_context_mut!(|ctx: &mut FormatContext| { ctx.tags_mut().insert(dcbor::Tag::new(999, "custom-tag")); }); String::new() }
     }
@@ -86,6 +90,7 @@ fn shared_envelope() -> Envelope {
         .add_assertion("f", Envelope::new(Function::from(1u64)).add_assertion(Envelope::new(Parameter::from(2u64)), 7))
         .add_assertion("when", dcbor::Date::from_timestamp(1720091471.0))
         .add_assertion("custom", CBOR::to_tagged_value(999, "payload"))
+        .add_assertion(KnownValue::new(4242), Envelope::new(Function::from(4343u64)).add_assertion(Envelope::new(Parameter::from(4444u64)), KnownValue::new(4545)))
 }
 type Config = Vec<Vec<usize>>;
 fn run_program(p: &[usize], e: &Envelope) -> Vec<String> { p.iter().map(|op| run_op(*op, e)).collect() }
@@ -187,10 +192,11 @@ fn configs(tier: &str) -> Vec<(Config, Option<usize>)> {
     let n = OPS.len();
     let thorough = tier == "thorough";
     // every pair of single-operation threads (up to symmetry), iterated preemption bounds
-    for a in 0..n { for b in a..n { v.push((vec![vec![a], vec![b]], Some(if thorough { 5 } else { 3 }))) } }
+    for a in 0..n { for b in a..n { { let writes = |o: usize| matches!(o, 6 | 12); v.push((vec![vec![a], vec![b]], Some(if thorough { 5 } else if writes(a) || writes(b) { 3 } else { 2 }))) } } }
     // (2-op, 1-op) pairs: first-use race followed by a formatting call, against every single operation
-    let two: Vec<Vec<usize>> = vec![vec![6, 1], vec![6, 0], vec![7, 0], vec![10, 2], vec![8, 4], vec![0, 6], vec![1, 1], vec![9, 1], vec![11, 0], vec![6, 4], vec![5, 6], vec![2, 3], vec![12, 1], vec![12, 6], vec![6, 12]];
-    for p in &two { for b in 0..n { v.push((vec![p.clone(), vec![b]], Some(if thorough { 3 } else { 2 }))) } }
+    let two: Vec<Vec<usize>> = vec![vec![6, 1], vec![6, 0], vec![7, 0], vec![10, 2], vec![8, 4], vec![0, 6], vec![1, 1], vec![9, 1], vec![11, 0], vec![6, 4], vec![5, 6], vec![2, 3], vec![12, 1], vec![12, 6], vec![6, 12], vec![13, 6], vec![14, 0]];
+    let partners: Vec<usize> = if thorough { (0..n).collect() } else { vec![0, 2, 4, 6, 7, 10, 12, 13] };
+    for p in &two { for b in &partners { v.push((vec![p.clone(), vec![*b]], Some(if thorough { 3 } else { 2 }))) } }
     // three threads: operation triples that touch different registries
     let triples: Vec<[usize; 3]> = vec![[0, 6, 2], [1, 7, 10], [6, 8, 9], [0, 1, 6], [4, 6, 7], [2, 3, 6], [6, 6, 0], [7, 8, 1], [10, 6, 5], [11, 0, 6], [12, 6, 1], [12, 12, 6]];
     for t in triples.iter().rev().take(if thorough { 12 } else { 7 }) { v.push((t.iter().map(|o| vec![*o]).collect(), Some(if thorough { 3 } else { 2 }))) }
@@ -270,6 +276,7 @@ fn main() {
     let schedules: u64 = results.iter().map(|r| r["schedules"].as_u64().unwrap_or(0)).sum();
     let events: u64 = results.iter().map(|r| r["sync_events"].as_u64().unwrap_or(0)).sum();
     let outcomes: u64 = results.iter().map(|r| r["distinct_outcomes"].as_u64().unwrap_or(0)).sum();
+    let slowest: Vec<Value> = { let mut r: Vec<&Value> = results.iter().collect(); r.sort_by(|a, b| b["secs"].as_f64().partial_cmp(&a["secs"].as_f64()).unwrap()); r.into_iter().take(8).map(|x| json!({"config": x["config"], "bound": x["bound"], "schedules": x["schedules"], "secs": x["secs"]})).collect() };
     let capped: Vec<&Value> = results.iter().filter(|r| r["time_cap_hit"].as_bool().unwrap_or(false)).collect();
     let capped_names: Vec<String> = capped.iter().map(|r| r["config"].as_str().unwrap_or("").to_string()).collect();
     let multi: usize = results.iter().filter(|r| r["distinct_outcomes"].as_u64().unwrap_or(0) >= 2).count();
@@ -281,8 +288,8 @@ fn main() {
         "coverage": {"states": schedules.max(1), "transitions": events.max(1), "traces_validated_against_impl": schedules, "samples": samples,
             "evaluations": schedules.max(1), "distinct_nontrivial": (outcomes as usize).max(2),
             "rule": "a case = one complete thread schedule of a configuration (2..4 loom threads, 1..2 operations each, on one shared envelope) run on the REAL lazy registries and formatter through the synchronisation seam, registries reset to never-initialised at the start of every execution; oracle: terminates (no deadlock / panic / poisoned lock) and the per-thread outputs equal those of SOME sequential order on freshly initialised registries; distinct_nontrivial = sum over configurations of distinct outcome vectors observed",
-            "exhaustive": capped_names.is_empty(), "configurations_stopped_by_the_time_cap": capped_names, "configurations": results.len(), "configurations_with_at_least_two_outcomes": multi, "by_shape": by_shape,
-            "bounds": {"threads_max": if tier == "thorough" { 4 } else { 3 }, "preemption_bounds": if tier == "thorough" { "2 threads bound 5 (single ops) / 3 (two-op programs), 3 threads bound 3, 4 threads bound 2" } else { "2 threads bound 3 (single ops) / 2 (two-op programs), 3 threads bound 2" }, "loom_branch_cap": 200000},
+            "exhaustive": capped_names.is_empty(), "configurations_stopped_by_the_time_cap": capped_names, "configurations": results.len(), "configurations_with_at_least_two_outcomes": multi, "by_shape": by_shape, "slowest_configurations": slowest,
+            "bounds": {"threads_max": if tier == "thorough" { 4 } else { 3 }, "preemption_bounds": if tier == "thorough" { "2 threads bound 5 (single ops) / 3 (two-op programs), 3 threads bound 3, 4 threads bound 2" } else { "2 threads: bound 3 for single-operation pairs involving a writer (register_tags, custom tag), bound 2 otherwise and for two-op programs; 3 threads bound 2" }, "loom_branch_cap": 200000},
             "operations": OPS, "failed_configurations": failures.len(), "known_findings_met": known_met, "unlisted_violations": viols},
         "assumptions": ["threads <= 4 (loom's limit); the statement says 2..16: a deadlock cycle needs at most as many threads as locks in the cycle and a first-use race needs two",
             "dcbor's registry is explored through a vendored copy of dcbor 0.17.1 that differs in three lines (sync import routed through the same seam)",
